@@ -92,12 +92,38 @@ fn oracle(s: &ProgScene<X>, t: &Trace) -> Vec<Violation> {
         }
     }
     // expected final state
+    // (a restart under recreate-from-default starts a fresh value: the state starts over with it,
+    // and it is that value the join hands out)
     let mut digest = DIGEST0;
     let mut handled = 0u32;
+    let mut last_inst: Option<u16> = None;
     for e in &an.exits {
+        if e.a == 0 && e.cb == Cb::Started && last_inst != Some(e.inst) {
+            digest = DIGEST0;
+            handled = 0;
+            last_inst = Some(e.inst);
+        }
         if let (0, Cb::Msg(id)) = (e.a, e.cb) {
             digest = fold(digest, id);
             handled += 1;
+        }
+    }
+    // the configured strategy is what decides whether a restart makes a new value - not what
+    // happened to be observed
+    let recreate = s.spawn.strat == crate::scenes::Strat::Recreate || (s.variant.recreate && s.spawn.strat == crate::scenes::Strat::Default);
+    let starts: Vec<u16> = an.exits.iter().filter(|e| e.a == 0 && e.cb == Cb::Started).map(|e| e.inst).collect();
+    for w in starts.windows(2) {
+        crate::check::oblige("final-state-of-the-configured-strategy");
+        if recreate == (w[0] == w[1]) {
+            out.push(Violation {
+                clause: "final-state",
+                key: format!("C17/restart-strategy-not-applied/script={script}"),
+                detail: format!(
+                    "the actor was built {} but a restart {}: the value the owner gets back is not the one the configuration promises",
+                    if recreate { "with recreate_from_default()" } else { "with the default strategy" },
+                    if w[0] == w[1] { "kept the old value" } else { "made a new value" }
+                ),
+            });
         }
     }
     let mut somes = 0;
@@ -149,7 +175,7 @@ fn oracle(s: &ProgScene<X>, t: &Trace) -> Vec<Violation> {
                                 detail: format!("{op:?} returned the actor although it failed"),
                             });
                         }
-                        if j.digest != digest || j.handled != handled || !j.stopped_seen {
+                        if j.digest != digest || j.handled != handled || !j.stopped_seen || last_inst.is_some_and(|i| i != j.inst) {
                             out.push(Violation {
                                 clause: "final-state",
                                 key: format!("C17/not-final-state/{name}/script={script}"),
@@ -248,13 +274,17 @@ fn make_case_slow(script: (&'static str, Vec<Op>), subs: &[Vec<L>], stopper: boo
         }
     }
     let mut spawn = SpawnCfg::plain(mailbox);
+    if RECREATE.with(|r| r.get()) {
+        spawn.strat = crate::scenes::Strat::Recreate;
+    }
     if let Some(f) = slow_stop {
         spawn.timeout = Some((2, f));
         role.stopped_sleep = 5;
     }
     let desc = format!(
-        "owning{} slow_stop={slow_stop:?} mailbox={} script={} stopper={} fail={:?} subs={}",
+        "owning{}{} slow_stop={slow_stop:?} mailbox={} script={} stopper={} fail={:?} subs={}",
         crate::progscene::variant_tag(),
+        if RECREATE.with(|r| r.get()) { " [recreate-from-default]" } else { "" },
         mailbox.name(),
         script.0,
         stopper,
@@ -268,6 +298,11 @@ fn make_case_slow(script: (&'static str, Vec<Op>), subs: &[Vec<L>], stopper: boo
         bound: None,
         scene: Box::new(ProgScene { variant: crate::progscene::current_variant(), attach: crate::progscene::attach_for(mailbox), spawn, roles: vec![role], clients, extra: X { owner_script: script.0 }, oracle }),
     }
+}
+
+thread_local! {
+    /// the actor is built with recreate_from_default()
+    static RECREATE: std::cell::Cell<bool> = const { std::cell::Cell::new(false) };
 }
 
 /// does the script terminate the actor by itself (consume / dropping the last handle)?
@@ -308,6 +343,23 @@ fn plain_cases(tier: Tier) -> Vec<Case> {
                 }
             }
         }
+    }
+    // a (successful) restart between submissions, under both restartable strategies: the owner gets
+    // the value of the last incarnation in its final state
+    for recreate in [false, true] {
+        RECREATE.with(|r| r.set(recreate));
+        for script in owner_scripts() {
+            if !matches!(script.0, "join" | "consume" | "late-join" | "consume_sync" | "send-joinstart-drop-owner-await") {
+                continue;
+            }
+            for &mb in &[Mailbox::U, Mailbox::B(1)] {
+                for sub in [vec![L::SendAddr, L::Restart, L::SendAddr], vec![L::CallAddr, L::Restart], vec![L::Restart, L::CallCal, L::Restart, L::SendAddr]] {
+                    let stopper = !self_terminating(script.0);
+                    v.push(make_case(script.clone(), &[sub], stopper, Fail::No, mb));
+                }
+            }
+        }
+        RECREATE.with(|r| r.set(false));
     }
     // a handler timeout is configured and stopped() takes longer than it
     for script in owner_scripts() {
